@@ -25,6 +25,11 @@ def make_cases(tier, seed, passes_multi, observe, classes=None, scale=1.0,
                 # consume the schedule with next() or with the documented
                 # for-loop / break idiom (a new loop per adjoint pass)
                 "protocol": "for" if (i + seed) % 3 == 1 else "next"}
+        # online schedules: every fifth case finalises late (one or two
+        # further next() calls after the forward reached its end)
+        if cfg["cls"] in ("TwoLevel", "SingleDiskCopy", "SingleDiskMove",
+                          "SingleMemory", "None") and (i + seed) % 5 == 3:
+            case["late"] = 1 + (i // 5) % 2
         # a quarter of the cases run while a sibling schedule (same class,
         # one parameter changed or none) is paused half-way and kept alive
         if (i * 7 + seed) % 4 == 2 and cfg["cls"] not in ("SingleMemory",
@@ -41,6 +46,9 @@ def decorate(case, i, seed=0, frac=4):
     frac-th case, a paused sibling schedule (see make_cases)."""
     cfg = case["cfg"]
     case.setdefault("protocol", "for" if (i + seed) % 3 == 1 else "next")
+    if cfg["cls"] in ("TwoLevel", "SingleDiskCopy", "SingleDiskMove",
+                      "SingleMemory", "None") and (i + seed) % 5 == 3:
+        case.setdefault("late", 1 + (i // 5) % 2)
     if (i * 7 + seed) % frac == 2 and cfg["cls"] not in ("SingleMemory",
                                                         "None"):
         from ..workloads import single_param_neighbours
@@ -75,7 +83,8 @@ def run_stream_case(case, record=False):
     res = run_stream(cfg, passes=case.get("passes", 1),
                      observe=case.get("observe"),
                      rng=random.Random(case.get("rseed", 0)), record=record,
-                     protocol=case.get("protocol", "next"))
+                     protocol=case.get("protocol", "next"),
+                     late=case.get("late", 0))
     if sib is not None:
         try:
             sib.run()
